@@ -248,7 +248,27 @@ def check_meter(ctx, case):
     ctx.note_case(nonint or big, labels)
 
 
-CHECKS = {"built": check_built, "near": check_near, "pair": check_pair, "tuplet": check_tuplet, "meter": check_meter}
+NAMED = {"longa": 0.25, "breve": 0.5, "semibreve": 1, "minim": 2, "crotchet": 4, "quaver": 8, "semiquaver": 16, "demisemiquaver": 32,
+         "hemidemisemiquaver": 64, "quasihemidemisemiquaver": 128, "semihemidemisemiquaver": 128, "whole": 1, "half": 2, "quarter": 4,
+         "eighth": 8, "sixteenth": 16, "thirty_second": 32, "sixty_fourth": 64, "hundred_twenty_eighth": 128}
+
+
+def check_named(ctx, name):
+    """the named base values (longa ... 128th) and the module's tables of base values and their tuplets"""
+    if name in NAMED:
+        got = getattr(value, name, None)
+        ctx.check(got == NAMED[name], "named-value", lambda: "value.%s = %r, expected %r" % (name, got, NAMED[name]))
+    else:
+        bases = [0.25, 0.5, 1, 2, 4, 8, 16, 32, 64, 128]
+        want = {"base_values": bases, "base_triplets": [b * 3 / 2 for b in bases], "base_quintuplets": [b * 5 / 4 for b in bases],
+                "base_septuplets": [b * 7 / 4 for b in bases]}[name]
+        got = getattr(value, name, None)
+        ctx.check(isinstance(got, list) and [float(x) for x in got] == [float(x) for x in want], "value-table",
+                  lambda: "value.%s = %r, expected %r" % (name, got, want))
+    ctx.note_case(True, ["named:" + ("value" if name in NAMED else "table")])
+
+
+CHECKS = {"named": check_named, "built": check_built, "near": check_near, "pair": check_pair, "tuplet": check_tuplet, "meter": check_meter}
 
 
 # ---- domains -------------------------------------------------------------------------------------------
@@ -256,6 +276,7 @@ def sub_built(ctx, shard, n):
     cases = [V.key(e) for e in V.VOCAB]
     ctx.exhaustive("built values: 10 bases x dots 0..4 + 10 bases x 3 tuplets", "the documented vocabulary", len(cases))
     ctx.enumerate("built", check_built, cases)
+    ctx.enumerate("named", check_named, sorted(NAMED) + ["base_values", "base_triplets", "base_quintuplets", "base_septuplets"])
 
 
 NEAR_E = [0.0, 0.001, -0.001, 0.005, -0.005, 0.01, -0.01]
